@@ -3,6 +3,7 @@ import CogentModel.Model.View
 import CogentModel.Model.FeatureView
 import CogentModel.Model.FeatureSeq
 import CogentModel.Model.FeatureProject
+import CogentModel.Model.FeatureAdd
 import CogentModel.Spec.FeatureView
 open CogentModel CogentModel.View CogentModel.FeatureView
 
@@ -66,6 +67,11 @@ def handle (cmd : String) (j : J) : Except String J :=
       let (ps, comp) := slicePositionsAny v f
       pure (J.obj [("spans", J.arr (f.spans.map mspanJ)), ("reversed", J.bool f.reversed),
                    ("pos", J.arr (ps.map J.num)), ("comp", J.bool comp)])
+  | "addfeature" => do
+    -- what `Sequence.add_feature` on a view writes to the db
+    match addFeatureRecord (← parseView (← j.get "view")) (← parseSpans (← j.get "spans")) (← (← j.get "minus").toBool) with
+    | .ok (db, dm) => pure (J.obj [("spans", J.arr (db.map fun p => J.arr [J.num p.1, J.num p.2])), ("minus", J.bool dm)])
+    | .error _ => pure (J.obj [("err", J.str "error")])
   | "copyview" => do
     match copyView (← parseView (← j.get "view")) with
     | .ok w => pure (J.obj [("start", J.num w.start), ("stop", J.num w.stop), ("step", J.num w.step),
